@@ -657,10 +657,25 @@ pub fn inputs_c16(r: &mut Rng, n: usize, _tier: &str, out: &mut dyn Write) {
             5 => writeln!(out, "next {} {}", es, wd(r)).unwrap(),
             6 => writeln!(out, "prev {} {}", es, wd(r)).unwrap(),
             7 => {
+                // all nine scales (ET/TDB count from noon); every other case in the last / first 40 s of a day of the
+                // scale's own calendar, where the TAI date and the own date differ
+                const ALL9: [&str; 9] = ["TAI", "TT", "UTC", "GPST", "GST", "BDT", "QZSST", "ET", "TDB"];
                 let op = *r.pick(&["next_midnight", "next_noon", "prev_midnight", "prev_noon"]);
-                writeln!(out, "{} {} {}", op, es, wd(r)).unwrap()
+                let ts9 = *r.pick(&ALL9);
+                let e9 = if r.chance(1, 2) {
+                    let d = r.range_i64(-693_960, 2_958_463) as i128;
+                    let half = if ts9 == "ET" || ts9 == "TDB" { DAY / 2 } else { 0 };
+                    d * DAY + half + r.range_i64(-40, 40) as i128 * SEC + r.below(SEC as u64) as i128 - (ref_off(ts9) / DAY) * DAY
+                } else if ts9 == "ET" || ts9 == "TDB" {
+                    (r.range_i64(-3_600_000, 3_600_000) as i128) * DAY + r.below(DAY as u64) as i128
+                } else {
+                    e - ref_off(ts) + ref_off(ts9)
+                };
+                writeln!(out, "{} {}:{} {}", op, dstr(e9.clamp(DMIN, DMAX)), ts9, wd(r)).unwrap()
             }
-            _ => writeln!(out, "weekday_ts {} {}", es, *r.pick(&["TAI", "UTC", "TT"])).unwrap(),
+            // the weekday of the calendar date in ANY of the seven non-dynamical target scales (the GNSS reference
+            // days are not Mondays)
+            _ => writeln!(out, "weekday_ts {} {}", es, *r.pick(&NONDYN)).unwrap(),
         }
     }
 }
